@@ -10,7 +10,7 @@ def FieldOk (st : Style) (env : PEnv) : FK → FV → Prop
   | .uint max, .n v => v ≤ max
   | .ttl, .n v => v ≤ Consts.maxTTL
   | .algo, .n v => v ≤ 255
-  | .name, .nm n => WfName n ∧ OctetsOk n ∧ NameCfgOk st env n
+  | .name, .nm n => NameFieldOk st env n
   | .cstr maxTok maxBytes true, .b s =>
     (∀ c ∈ s, c < 256) ∧ (∀ m, maxTok = some m → s.length ≤ m) ∧ (∀ m, maxBytes = some m → s.length ≤ m)
   | .cstr maxTok maxBytes false, .b s =>
@@ -33,7 +33,9 @@ theorem field_rt (st : Style) (env : PEnv) (k : FK) (v : FV) (h : FieldOk st env
   case uint.n max v => exact ⟨_, _, field_uint st env max v h⟩
   case ttl.n v => exact ⟨_, _, field_ttl st env v h⟩
   case algo.n v => exact ⟨_, _, field_algo st env v h⟩
-  case name.nm n => exact ⟨_, _, field_name st env n h.1 h.2.1 h.2.2⟩
+  case name.nm n =>
+    obtain ⟨t, ht⟩ := field_name st env n h
+    exact ⟨_, _, ht⟩
   case cstr.b maxTok maxBytes q s =>
     cases q with
     | false => simp only [FieldOk] at h; exact ⟨_, _, field_cstr_bare st env maxTok maxBytes s h.1 h.2.1 h.2.2.1 h.2.2.2⟩
